@@ -26,6 +26,7 @@ func c19Scenario(nClients int, body func(node hapi.Node, cs []*cl.Client, lg *c1
 		lg := &c19Log{}
 		var engErr string
 		opt.MaxPoints = 50_000_000
+		opt.HB = true
 		rt := vrt.Run(opt, func() {
 			node := hapi.Factories["n0"](hapi.Config{FastKeys: 4, Concurrent: 1})
 			if err := node.Start(); err != nil {
@@ -70,6 +71,10 @@ func c19Scenario(nClients int, body func(node hapi.Node, cs []*cl.Client, lg *c1
 		}
 		if rt.Crash != nil {
 			out.Violations = []explore.Violation{{Sig: "C19:crash", Msg: rt.Crash.Value + "\n" + firstLines(rt.Crash.Stack, 16)}}
+			return rt, out
+		}
+		if mr := rt.MapRaceReport(); mr != "" {
+			out.Violations = []explore.Violation{{Sig: "C19:crash/concurrent-map-access", Msg: "two threads access a map without an ordering between them (the Go runtime kills the process when they meet): " + mr}}
 			return rt, out
 		}
 		if rt.Deadlock != "" {
